@@ -473,3 +473,129 @@ func T14(rc *RC) {
 	}
 	_ = n
 }
+
+// PO: publish last. An object handed back to one of the library's free lists (a send on a pool
+// channel, Put on a sync.Pool) belongs, from that statement on, to whichever goroutine borrows it
+// next. The returning function therefore touches it no more: no statement that can execute after
+// the hand-over mentions the object, and no deferred call registered in the function does
+// (deferred calls run after the hand-over). `defer destroyHeader(hdr)` in front of
+// `headerPool <- hdr` wipes a header another goroutine may already have borrowed.
+func PO(rc *RC, floor int) {
+	rc.S.Declare("PO", "publish last: after an object is handed to a pool (channel send / sync.Pool.Put on a package-level pool) the returning function neither reads nor writes it, and no deferred call in that function mentions it", floor)
+	for _, fi := range rc.P.SortedFuncs() {
+		if fi.Pkg != rc.P.Root || fi.Decl == nil || fi.Decl.Body == nil || strings.HasSuffix(fi.File, "_test.go") {
+			continue
+		}
+		info := fi.Pkg.TypesInfo
+		isPool := func(e ast.Expr) bool {
+			for {
+				switch x := e.(type) {
+				case *ast.IndexExpr:
+					e = x.X
+					continue
+				case *ast.ParenExpr:
+					e = x.X
+					continue
+				}
+				break
+			}
+			id, ok := e.(*ast.Ident)
+			if !ok {
+				return false
+			}
+			v, ok := info.Uses[id].(*types.Var)
+			return ok && v.Parent() == fi.Pkg.Types.Scope()
+		}
+		// publish statements and the object they publish
+		type pub struct {
+			stmt ast.Stmt
+			obj  types.Object
+			name string
+		}
+		var pubs []pub
+		var stack []ast.Node
+		parents := map[ast.Node][]ast.Node{}
+		ast.Inspect(fi.Decl.Body, func(n ast.Node) bool {
+			if n == nil {
+				stack = stack[:len(stack)-1]
+				return true
+			}
+			parents[n] = append([]ast.Node{}, stack...)
+			stack = append(stack, n)
+			switch x := n.(type) {
+			case *ast.FuncLit:
+				// closures are units of their own; not followed here
+			case *ast.SendStmt:
+				if isPool(x.Chan) {
+					if id, ok := x.Value.(*ast.Ident); ok {
+						pubs = append(pubs, pub{x, info.ObjectOf(id), id.Name})
+					}
+				}
+			case *ast.ExprStmt:
+				if call, ok := x.X.(*ast.CallExpr); ok && len(call.Args) == 1 {
+					if sel, isSel := call.Fun.(*ast.SelectorExpr); isSel && sel.Sel.Name == "Put" && isPool(sel.X) {
+						if id, isId := call.Args[0].(*ast.Ident); isId {
+							pubs = append(pubs, pub{x, info.ObjectOf(id), id.Name})
+						}
+					}
+				}
+			}
+			return true
+		})
+		mentions := func(n ast.Node, o types.Object) bool {
+			found := false
+			ast.Inspect(n, func(m ast.Node) bool {
+				if id, ok := m.(*ast.Ident); ok && info.ObjectOf(id) == o {
+					found = true
+				}
+				return !found
+			})
+			return found
+		}
+		for i, p := range pubs {
+			if p.obj == nil {
+				continue
+			}
+			key := fmt.Sprintf("%s#%s@%d", fi.Key, p.name, i)
+			pos := rc.P.Pos(p.stmt.Pos())
+			bad := ""
+			// deferred calls anywhere in the function
+			ast.Inspect(fi.Decl.Body, func(m ast.Node) bool {
+				if d, ok := m.(*ast.DeferStmt); ok && bad == "" && mentions(d, p.obj) {
+					bad = fmt.Sprintf("the deferred call at %s mentions %s and runs after the hand-over", rc.P.Pos(d.Pos()), p.name)
+				}
+				return true
+			})
+			// statements that follow the hand-over in an enclosing block
+			child := ast.Node(p.stmt)
+			anc := parents[p.stmt]
+			for j := len(anc) - 1; j >= 0 && bad == ""; j-- {
+				var list []ast.Stmt
+				switch b := anc[j].(type) {
+				case *ast.BlockStmt:
+					list = b.List
+				case *ast.CaseClause:
+					list = b.Body
+				case *ast.CommClause:
+					list = b.Body
+				}
+				after := false
+				for _, st := range list {
+					if after && mentions(st, p.obj) {
+						bad = fmt.Sprintf("the statement at %s uses %s after the hand-over", rc.P.Pos(st.Pos()), p.name)
+						break
+					}
+					if ast.Node(st) == child {
+						after = true
+					}
+				}
+				child = anc[j]
+			}
+			if bad != "" {
+				rc.S.Viol("PO", key, pos, bad)
+			} else {
+				rc.S.Ok("PO", key, pos, p.name+" is not touched after it was handed to the pool")
+			}
+		}
+	}
+}
